@@ -572,7 +572,7 @@ func C08(c *fw.Ctx) {
 		"(validated with the reference automaton); quick: up to 3 sampled sites per rewrite kind and document, thorough: every legal site once; " +
 		"compositions: 3 / 12 per document of 2-6 single-site rewrites on different lines applied together, with re-indentation and a " +
 		"line-ending change on top (for rejected originals only verdict and error class are compared); layout pairs: 250 / 6000 abstract " +
-		"models rendered plainly and in 11 layouts that differ from the plain one in exactly one dimension (where a blank, a comment, a " +
+		"models rendered plainly and in 12 layouts that differ from the plain one in exactly one dimension (where a blank, a comment, a " +
 		"quote or a parenthesis goes is decided there by the renderer, not by the scanner under test) - equal catalogs; " +
 		"legal sites come from the public lexeme stream; oracle: accepted stays accepted with an equal catalog (CR/CRLF in string values " +
 		"normalised), rejected stays rejected with the same error class and the error line moves with the text; distinct = distinct rewritten " +
@@ -594,6 +594,9 @@ func C08(c *fw.Ctx) {
 			if !p.HasInclude() {
 				add(p.Name, p.RootContent())
 			}
+		}
+		for name, content := range ruleRejectedDocs() {
+			add(name, content)
 		}
 		r := gen.Rng(c.Seed, c.ID, "models")
 		for i := 0; i < c.Pick(200, 3000); i++ {
@@ -707,7 +710,7 @@ func C08(c *fw.Ctx) {
 			c.Violate("error-class-changed:"+rw.kind, fmt.Sprintf("%s (%s) of %s: %q becomes %q", rw.kind, rw.site, d.name, trunc(base.Err.Msg, 120), trunc(res.Err.Msg, 120)), rp)
 			return
 		}
-		if base.Err.Line > 0 && base.Err.Index < len(d.content) && rw.kind != "RC-composed" {
+		if base.Err.Line > 0 && base.Err.Index <= len(d.content) && rw.kind != "RC-composed" { // also errors at the end of the file (they have a line since D40)
 			want := rw.mapLine(base.Err.Line)
 			if res.Err.Line != want {
 				sig := "error-line:" + rw.kind
@@ -737,7 +740,7 @@ func c08LayoutPairs(c *fw.Ctx, pool *proc.Pool) {
 		{"indent-4", func(l *model.Layout) { l.Unit = "    " }}, {"indent-tab", func(l *model.Layout) { l.Unit = "\t" }}, {"indent-none", func(l *model.Layout) { l.FlatIndent = true; l.ExplicitP = 100 }},
 		{"comments", func(l *model.Layout) { l.Comments = true }}, {"trailing-blanks", func(l *model.Layout) { l.Trailing = true }},
 		{"quote-all", func(l *model.Layout) { l.QuoteAll = true }}, {"block-annotations", func(l *model.Layout) { l.BlockAnn = true }},
-		{"explicit-contexts", func(l *model.Layout) { l.ExplicitP = 100 }}, {"explicit-some", func(l *model.Layout) { l.ExplicitP = 50 }},
+		{"explicit-contexts", func(l *model.Layout) { l.ExplicitP = 100 }}, {"explicit-some", func(l *model.Layout) { l.ExplicitP = 50 }}, {"token-gaps", func(l *model.Layout) { l.Gaps = true }},
 	}
 	type pairState struct {
 		base     *proto.Result
